@@ -7,6 +7,7 @@
 From Coq Require Import ZArith List Bool.
 From ADF Require Import CPrelude Generated.Layout Generated.Leaf Model.Bitmap Proofs.BitmapP Proofs.GeometryP Model.FileMap Proofs.FileMapP.
 From Coq Require Import Permutation.
+From ADF Require Model.FileIO Proofs.FileIOP.
 Import ListNotations.
 Local Open Scope Z_scope.
 
@@ -39,7 +40,18 @@ Theorem C05_truncate_conserves : forall s n, Inv s -> (n <= length (f_data s))%n
   (forall b, In b freed -> ~ In b (f_data s' ++ f_exts s')).
 Proof. exact trunc_inv. Qed.
 
+(* the same on the file handle model (Model/FileIO.v: adfFileTruncate and adfFileTruncateGetBlocksToRemove statement by statement, tied to
+   adf_file.c by the call-level correspondence with bitmap probes): the list a successful shrinking truncation hands to
+   adfSetBlockFree is, up to order, exactly the data blocks beyond the new length and the extension blocks no longer needed -
+   every block the file occupied beyond its new size, and none that it keeps (the kept lists are the prefixes: C01_handle_truncate_shrink) *)
+Theorem C05_truncate_frees_exactly_the_cut_blocks : forall bs ofs key, 0 < bs -> forall s L E al new ok s' rem al',
+  FileIOP.Inv bs ofs key s L E -> FileIO.mw s = true -> 0 <= new < FileIO.fsize s ->
+  FileIO.fio_truncate bs ofs FileIOP.nobad s new al = (ok, s', rem, al') -> ok = true ->
+  Permutation rem (skipn (Z.to_nat (FileIO.size2db new bs)) L ++ skipn (Z.to_nat (FileIO.db2ext (FileIO.size2db new bs))) E).
+Proof. exact FileIOP.fio_truncate_shrink_frees. Qed.
+
 Print Assumptions C05_count.
+Print Assumptions C05_truncate_frees_exactly_the_cut_blocks.
 Print Assumptions C05_count_after_alloc.
 Print Assumptions C05_blocks_of_file.
 Print Assumptions C05_truncate_conserves.
